@@ -52,7 +52,7 @@ ASSUMPTIONS = [
     "Q registers (scratch electron register) and C15 (end no-op) are excluded from the classical comparison",
 ]
 PROBES = ["sdk-emitted", "sdk-nv-config", "branch-crosses-expansion", "carbon-carbon-gate", "end-label-target", "loop", "if", "measure-feeds-branch",
-          "debug-on", "three-qubits", "s-or-t-gate", "q-register-by-load", "carbon-carbon-burst"]
+          "debug-on", "three-qubits", "s-or-t-gate", "q-register-by-load", "carbon-carbon-burst", "q-register-live-across-carbon-gate"]
 
 G1 = ["x", "y", "z", "h", "k", "s", "t"]
 Q = [("Q", 0), ("Q", 1)]
@@ -131,6 +131,15 @@ class ProgGen:
 
     def program(self) -> List[tuple]:
         body = self.block(0)
+        if self.n >= 3 and self.ch.flag(1, 6, "liveq"):
+            # a third qubit register, written by `load` only and *not* used by any gate, stays live across a
+            # carbon-carbon gate (whose expansion borrows a scratch register) and is read by a measurement afterwards
+            self.kinds.add("q-register-live-across-carbon-gate")
+            self.kinds.add("carbon-carbon-gate")
+            q = self.ch.draw(self.n, "liveqid")
+            body += [("set", ("R", 9), q), ("load", ("Q", 2), 7, ("R", 9)),
+                     ("set", ("Q", 0), 1), ("set", ("Q", 1), 2), (self.ch.pick(["cnot", "cphase"]), ("Q", 0), ("Q", 1)),
+                     ("meas", ("Q", 2), ("M", 1)), ("set", ("R", 8), 3), ("store", ("M", 1), 0, ("R", 8))]
         if self.n >= 3 and self.ch.flag(1, 12, "ccburst"):
             # a long run of carbon-carbon gates: every one borrows the electron through a scratch register
             self.kinds.add("carbon-carbon-burst")
